@@ -184,9 +184,15 @@ func judgeC04(c *C04Case, cx *Ctx) *Violation {
 		}
 		return false
 	}
+	coincident := hasCoincidentEdges(inputs)
+	coincidentOK := coincident && kfActive("C04", "class:coincident-input-edges")
 	// listed finding F32: a polygon that touches another one (common boundary point) may be
 	// nested under / beside it wrongly. i = node, other = expected parent (-1 root, -2 unknown).
 	touchExcuse := func(i, other int) bool {
+		if coincidentOK {
+			cx.St.Count("mismatch_attributed_to_listed_class_coincident_edges", 1)
+			return true
+		}
 		if !kfActive("C04", "class:touching-polygons") {
 			return false
 		}
@@ -300,6 +306,9 @@ func judgeC04(c *C04Case, cx *Ctx) *Violation {
 	case maxLevel >= 3:
 		depth = "depth:3+"
 	}
+	if coincident && !inClass {
+		dom = "domain:coincident-input-edges"
+	}
 	cx.St.Eval(c, maxLevel >= 2 && holes > 0 && len(nodes) >= 3, c.Fam.Label(), "variant:"+c.Variant, depth, dom, "op:"+ctName(c.CT)+"/"+frName(c.FR))
 	cx.St.Count("nodes", int64(len(nodes)))
 	cx.St.Count("nodes_with_interior_probe_judged", int64(judgedNodes))
@@ -317,6 +326,42 @@ func touches(p, q Path) bool {
 	for _, v := range q {
 		if _, on := kit.WindPath(p, v); on {
 			return true
+		}
+	}
+	return false
+}
+
+// hasCoincidentEdges: two distinct input edges are collinear and overlap in a segment of
+// positive length (identification of listed finding F38).
+func hasCoincidentEdges(ps Paths) bool {
+	type seg struct{ a, b P }
+	var segs []seg
+	for _, p := range ps {
+		for i := range p {
+			a, b := p[i], p[(i+1)%len(p)]
+			if a != b {
+				segs = append(segs, seg{a, b})
+			}
+		}
+	}
+	if len(segs) > 3000 {
+		return false
+	}
+	for i := range segs {
+		for j := i + 1; j < len(segs); j++ {
+			s, t := segs[i], segs[j]
+			if kit.CrossSign(s.a, s.b, t.a) != 0 || kit.CrossSign(s.a, s.b, t.b) != 0 {
+				continue
+			}
+			var lo1, hi1, lo2, hi2 int64
+			if abs64(s.b.X-s.a.X) >= abs64(s.b.Y-s.a.Y) {
+				lo1, hi1, lo2, hi2 = min(s.a.X, s.b.X), max(s.a.X, s.b.X), min(t.a.X, t.b.X), max(t.a.X, t.b.X)
+			} else {
+				lo1, hi1, lo2, hi2 = min(s.a.Y, s.b.Y), max(s.a.Y, s.b.Y), min(t.a.Y, t.b.Y), max(t.a.Y, t.b.Y)
+			}
+			if max(lo1, lo2) < min(hi1, hi2) {
+				return true
+			}
 		}
 	}
 	return false
